@@ -105,4 +105,98 @@ theorem setIsEmpty_setOf (ts : List Term) (ty : TermType) : setIsEmpty (setOf ts
     | nil => have := (hm t).mpr (by simp); rw [h] at this; simp at this
     | cons _ _ => rfl
 
+theorem all_contains_congr {a1 a2 b1 b2 : List Term} (ha : ∀ y, y ∈ a1 ↔ y ∈ a2) (hb : ∀ y, y ∈ b1 ↔ y ∈ b2) :
+    a1.all (fun x => b1.contains x) = a2.all (fun x => b2.contains x) := by
+  rw [Bool.eq_iff_iff]
+  simp only [List.all_eq_true, List.contains_iff_mem]
+  constructor
+  · intro h x hx; exact (hb x).mp (h x ((ha x).mpr hx))
+  · intro h x hx; exact (hb x).mpr (h x ((ha x).mp hx))
+
+/-- `factory::set_subset` on two canonical literal sets folds to "every element of the first list occurs in the second" -/
+theorem setSubset_setOf (as bs : List Term) (ty : TermType)
+    (has : ∀ y, y ∈ as → y.isLiteral = true) (hbs : ∀ y, y ∈ bs → y.isLiteral = true) :
+    setSubset (setOf as ty) (setOf bs ty) = .prim (.bool (as.all (fun x => bs.contains x))) := by
+  have hc := all_contains_congr (setOf_mem as ty) (setOf_mem bs ty)
+  unfold setSubset
+  by_cases he : (setOf as ty == setOf bs ty) = true
+  · simp only [he, if_true]
+    have : setOf as ty = setOf bs ty := by simpa using he
+    have hall : (setElts (setOf as ty)).all (fun x => (setElts (setOf as ty)).contains x) = true := by
+      simp [List.all_eq_true]
+    rw [← hc, ← this, hall]
+  · simp only [he, Bool.false_eq_true, if_false]
+    rw [show (setOf as ty).isSet = true from isSet_setMk ty _, show (setOf bs ty).isSet = true from isSet_setMk ty _,
+      setOf_isLiteral as ty has, setOf_isLiteral bs ty hbs]
+    by_cases hem : (setElts (setOf as ty)).isEmpty = true
+    · simp only [hem, Bool.and_self, if_true]
+      have : setElts (setOf as ty) = [] := by simpa using hem
+      rw [← hc, this]; rfl
+    · simp only [hem, Bool.and_false, Bool.false_eq_true, if_false, Bool.and_self, if_true, hc]
+
+theorem setIsEmpty_isSet {s : Term} (h : s.isSet = true) : setIsEmpty s = .prim (.bool (setElts s).isEmpty) := by
+  simp [setIsEmpty, h]
+
+theorem nonempty_eq_any {E as bs : List Term} (h : ∀ y, y ∈ E ↔ (y ∈ as ∧ y ∈ bs)) :
+    (!E.isEmpty) = as.any (fun x => bs.contains x) := by
+  rw [Bool.eq_iff_iff]
+  simp only [Bool.not_eq_true', List.any_eq_true, List.contains_iff_mem]
+  constructor
+  · intro hne
+    cases E with
+    | nil => simp at hne
+    | cons e es => exact ⟨e, (h e).mp (by simp)⟩
+  · rintro ⟨x, hx⟩
+    cases E with
+    | nil => exact absurd ((h x).mpr hx) (by simp)
+    | cons e es => rfl
+
+/-- `factory::set_inter` on two canonical literal sets: a set term whose members are the common members -/
+theorem setInter_setOf (as bs : List Term) (ty : TermType)
+    (has : ∀ y, y ∈ as → y.isLiteral = true) (hbs : ∀ y, y ∈ bs → y.isLiteral = true) :
+    (setInter (setOf as ty) (setOf bs ty)).isSet = true ∧
+    ∀ y, y ∈ setElts (setInter (setOf as ty) (setOf bs ty)) ↔ (y ∈ as ∧ y ∈ bs) := by
+  have ha := setOf_mem as ty
+  have hb := setOf_mem bs ty
+  have hsa : (setOf as ty).isSet = true := isSet_setMk ty _
+  have hsb : (setOf bs ty).isSet = true := isSet_setMk ty _
+  unfold setInter
+  by_cases he : (setOf as ty == setOf bs ty) = true
+  · simp only [he, if_true]
+    have : setOf as ty = setOf bs ty := by simpa using he
+    refine ⟨hsa, fun y => ?_⟩
+    constructor
+    · intro hy; exact ⟨(ha y).mp hy, (hb y).mp (this ▸ hy)⟩
+    · intro hy; exact (ha y).mpr hy.1
+  · simp only [he, Bool.false_eq_true, if_false, hsa, hsb, Bool.true_and]
+    by_cases h1 : (setElts (setOf as ty)).isEmpty = true
+    · simp only [h1, if_true]
+      refine ⟨hsa, fun y => ?_⟩
+      have hnil : setElts (setOf as ty) = [] := by simpa using h1
+      constructor
+      · intro hy; rw [hnil] at hy; simp at hy
+      · intro hy; exact (ha y).mpr hy.1
+    · simp only [h1, Bool.false_eq_true, if_false]
+      by_cases h2 : (setElts (setOf bs ty)).isEmpty = true
+      · simp only [h2, if_true]
+        refine ⟨hsb, fun y => ?_⟩
+        have hnil : setElts (setOf bs ty) = [] := by simpa using h2
+        constructor
+        · intro hy; rw [hnil] at hy; simp at hy
+        · intro hy; exact (hb y).mpr hy.2
+      · simp only [h2, Bool.false_eq_true, if_false, setOf_isLiteral as ty has, setOf_isLiteral bs ty hbs, Bool.and_self,
+          if_true]
+        refine ⟨isSet_setMk _ _, fun y => ?_⟩
+        rw [setElts_setMk]
+        simp only [List.mem_filter, List.contains_iff_mem, ha, hb]
+
+/-- `factory::set_intersects` on two canonical literal sets folds to "some element of the first list occurs in the second" -/
+theorem setIntersects_setOf (as bs : List Term) (ty : TermType)
+    (has : ∀ y, y ∈ as → y.isLiteral = true) (hbs : ∀ y, y ∈ bs → y.isLiteral = true) :
+    setIntersects (setOf as ty) (setOf bs ty) = .prim (.bool (as.any (fun x => bs.contains x))) := by
+  obtain ⟨hs, hm⟩ := setInter_setOf as bs ty has hbs
+  unfold setIntersects
+  rw [setIsEmpty_isSet hs, ← nonempty_eq_any hm]
+  rfl
+
 end Cedar.SymC
